@@ -255,3 +255,52 @@ Proof.
   cbn [skipn]. destruct (first_idx (path_hit (canon p)) ps) as [j|]; cbn [idx_z]; [reflexivity|].
   xstep. reflexivity.
 Qed.
+
+(* ------------------------------------------------------------------ bufs_findroom *)
+Definition ptr_val (v : val) : Prop := v = VInt 0 \/ exists b o, v = VPtr b o.
+Definition is_null (v : val) : bool := match v with VInt 0 => true | _ => false end.
+Definition lbs_ok (t : list cslot) : Prop := Forall (fun s => ptr_val (cs_lb s)) t.
+Definition room_of (t : list cslot) : nat :=
+  match first_idx (fun s => is_null (cs_lb s)) (firstn 15 t) with Some i => i | None => 15%nat end.
+Definition room_loop : stmt := match fn_body cf_bufs_findroom with SSeq (SSeq _ w) _ => w | _ => SSkip end.
+
+Lemma nths_skipn t i : (i < length t)%nat -> skipn i t = nths t i :: skipn (S i) t.
+Proof. apply skipn_cons_nth. Qed.
+Lemma lbs_nth t i : lbs_ok t -> (i < length t)%nat -> ptr_val (cs_lb (nths t i)).
+Proof. intros H Hi. unfold lbs_ok in H. rewrite Forall_forall in H. apply H. apply nth_In. exact Hi. Qed.
+
+Lemma room_loop_ok call m t : tab_at m t -> tab_ok t -> lbs_ok t ->
+  forall k i fuel, (i + k = 15)%nat -> (k < fuel)%nat ->
+  exec call fuel room_loop (mkst [VInt (Z.of_nat i)] m) =
+  ONormal (mkst [VInt (Z.of_nat (match first_idx (fun s => is_null (cs_lb s)) (skipn i (firstn 15 t)) with Some j => i + j | None => 15 end))] m).
+Proof.
+  intros Hm [Hl Hs] Hlb.
+  induction k as [|k IH]; intros i fuel Hik Hf; (destruct fuel as [|fuel]; [lia|]);
+    unfold room_loop; cbn [fn_body cf_bufs_findroom]; rewrite exec_for; xstep; len16; xstep;
+    rewrite (wrap_U64_id (Z.of_nat i)) by lia; change (wrap U64 16) with 16; change (wrap U64 1) with 1; change (chk U64 (16 - 1)) with (@Ok Z 15); xstep.
+  - assert (i = 15%nat) by lia. subst i. change (Z.of_nat 15 <? 15) with false. xstep.
+    rewrite skipn_all2 by (rewrite firstn_length; lia). reflexivity.
+  - destruct (Z.ltb_spec (Z.of_nat i) 15); [|lia]. xstep.
+    rewrite (skipn_cons_nth (firstn 15 t) i cs_zero) by (rewrite firstn_length; lia). cbn [first_idx].
+    replace (nth i (firstn 15 t) cs_zero) with (nths t i).
+    2:{ unfold nths. rewrite <- (firstn_skipn 15 t) at 1. rewrite app_nth1 by (rewrite firstn_length; lia). reflexivity. }
+    slot_off i 1%nat.
+    destruct (lbs_nth t i Hlb ltac:(lia)) as [E|[b [o E]]].
+    + rewrite (tab_load m t i 1 (VInt 0) _ Hm Hs) by (try lia; cbn [cs_tail nth_error]; congruence). xstep.
+      rewrite E. cbn [is_null]. rewrite Nat.add_0_r. reflexivity.
+    + rewrite (tab_load m t i 1 (VPtr b o) _ Hm Hs) by (try lia; cbn [cs_tail nth_error]; congruence). xstep.
+      rewrite E. cbn [is_null]. rewrite chk_I32 by lia. xstep. replace (Z.of_nat i + 1) with (Z.of_nat (S i)) by lia.
+      specialize (IH (S i) fuel ltac:(lia) ltac:(lia)). unfold room_loop in IH; cbn [fn_body cf_bufs_findroom] in IH. rewrite IH.
+      destruct (first_idx (fun s => is_null (cs_lb s)) (skipn (S i) (firstn 15 t))); cbn [option_map]; [|reflexivity].
+      replace (i + S n)%nat with (S i + n)%nat by lia. reflexivity.
+Qed.
+
+(* bufs_findroom(): the first of the slots 0..14 whose lb is NULL, else 15; for ANY table; memory unchanged *)
+Theorem tr_bufs_findroom m t d fuel : tab_at m t -> tab_ok t -> lbs_ok t -> (15 < fuel)%nat ->
+  callf cprog fuel (S d) F_bufs_findroom [] m = Ok (VInt (Z.of_nat (room_of t)), m).
+Proof.
+  intros Hm Ht Hlb Hf. enter F_bufs_findroom cf_bufs_findroom. rewrite exec_seq, exec_seq, exec_expr. xcbn.
+  pose proof (room_loop_ok (callf cprog fuel d) m t Hm Ht Hlb 15 0 fuel ltac:(lia) Hf) as Hloop.
+  unfold room_loop in Hloop; cbn [fn_body cf_bufs_findroom] in Hloop. change (Z.of_nat 0) with 0 in Hloop. rewrite Hloop.
+  xstep. reflexivity.
+Qed.
